@@ -8,7 +8,7 @@ from scipy import ndimage
 from scipy.spatial import Delaunay
 import shapely
 import shapely.geometry as sg
-from shapely.ops import unary_union, polygonize
+from shapely.ops import unary_union, polygonize, linemerge
 
 from pero_ocr.core.layout import TextLine
 
@@ -342,12 +342,19 @@ def mask_textline_by_region(baseline, textline, region):
     if isinstance(textline_is, sg.MultiPolygon):  # this can happen generally with some combinations of layout and line detection
         areas = np.array([poly.area for poly in textline_is.geoms])
         textline_is = textline_is.geoms[np.argmax(areas)]
+    if isinstance(baseline_is, sg.MultiLineString):
+        # the clipping may cut a baseline at its own vertices (nearly collinear points): pieces that continue each other are one piece
+        baseline_is = linemerge(baseline_is)
     if isinstance(baseline_is, sg.MultiLineString):  # this can happen generally with some combinations of layout and line detection
         lengths = np.array([line.length for line in baseline_is.geoms])
         baseline_is = baseline_is.geoms[np.argmax(lengths)]
 
     if isinstance(baseline_is, sg.LineString) and isinstance(textline_is, sg.Polygon) and baseline_is.length > 2:
-        return np.asarray(baseline_is.coords), np.asarray(textline_is.exterior.coords)
+        baseline_coords = np.asarray(baseline_is.coords)
+        # the clipped piece keeps the direction of the detected baseline
+        if baseline_shpl.project(sg.Point(baseline_coords[0])) > baseline_shpl.project(sg.Point(baseline_coords[-1])):
+            baseline_coords = baseline_coords[::-1]
+        return baseline_coords, np.asarray(textline_is.exterior.coords)
     else:
         return None, None
 
